@@ -1,5 +1,6 @@
 import AcraModel.Typed.Spec
 import AcraModel.Typed.KindsLemmas
+import AcraModel.Typed.RowLemmas
 import AcraModel.Wire.ByteaLemmas
 /-!
 # C19 — typed columns come back in the declared type or per the failure policy
@@ -592,6 +593,233 @@ theorem initSetting_valid (raw : RawSetting) (s : Setting) (h : initSetting raw 
         simp at hpol
         exact absurd (hpol.symm.trans h.1) hp
 
+/-! ## whole rows: the column loops of the two proxies -/
+
+/-- Facts from the regenerated sources the row models rely on.
+* PostgreSQL `handleQueryDataPacket`: the result format of column `i` is `GetParameterFormatByIndex(i, bindPacket.resultFormats)`
+  – PostgreSQL's rule applied to the DECLARED codes of the Bind packet, for every `i`, under no other condition than
+  "there is a Bind packet"; its error ends the row; it is compared with `dataFormatBinary` = `int(base.BinaryFormat)`; the
+  default is text; the loop passes its own `ctx` to every `onColumnDecryption`, which drops the context the subscribers return.
+* MySQL `processTextDataRow` / `processBinaryDataRow`: `onColumnDecryption` is called with the row's `ctx`, the context
+  it returns is bound to a variable declared inside the loop body (never to `ctx`, and `ctx` is not assigned in the
+  loop), and the roll-back test reads that per-column variable. -/
+theorem fact_row_loops :
+    Generated.Typed.pgRowFormatExpr = "GetParameterFormatByIndex(i, bindPacket.resultFormats)" ∧
+    Generated.Typed.pgRowFormatConds = ["bindPacket != nil"] ∧
+    Generated.Typed.pgRowFormatOp = 0 ∧ Generated.Typed.pgRowFormatSlice = 0 ∧
+    Generated.Typed.pgRowFormatIndexGuard = false ∧ Generated.Typed.pgRowFormatErrReturned = true ∧
+    Generated.Typed.pgRowBinaryArg = "format == dataFormatBinary" ∧
+    Generated.Typed.pgDataFormatBinary = Generated.Typed.baseBinaryFormat ∧
+    Generated.Typed.pgRowFormatDefault = Generated.Typed.baseTextFormat ∧
+    Generated.Typed.baseTextFormat = Generated.Wire.pgBindFormatText ∧
+    Generated.Typed.baseBinaryFormat = Generated.Wire.pgBindFormatBinary ∧
+    Generated.Typed.pgRowCtxCarried = false ∧ Generated.Typed.pgOnColumnCtxDropped = true ∧
+    Generated.Typed.myTextRowCtxBinding = ("ctx", "decrCtx", "decrCtx") ∧
+    Generated.Typed.myBinaryRowCtxBinding = ("ctx", "decrCtx", "decrCtx") ∧
+    Generated.Typed.myTextRowCtxFresh = true ∧ Generated.Typed.myBinaryRowCtxFresh = true ∧
+    Generated.Typed.myTextRowCtxCarried = false ∧ Generated.Typed.myBinaryRowCtxCarried = false ∧
+    Generated.Typed.myTextRowRollbackReadsReturned = true ∧ Generated.Typed.myBinaryRowRollbackReadsReturned = true ∧
+    Generated.Typed.myOnColumnReturnsSubscriberCtx = true := by decide
+
+/-- **pg_result_format_rule.** For EVERY list of result-format codes a Bind packet may carry and EVERY column index, the
+format in which the proxy decodes and re-encodes column `i` is the format PostgreSQL itself uses for column `i`:
+* no codes – text for every column;
+* ONE code – that code for every column (not only the first);
+* one code per column – the column's own code;
+and a column for which PostgreSQL has no code (`n ≥ 2` codes, `i ≥ n`) is an error, never a silent default. A simple
+query (no Bind) is text. -/
+theorem pg_result_format_rule (rf : List Nat) (hv : ValidCodes rf) (i : Nat) :
+    columnFormat (some rf) i = (match pgResultFormat rf i with | some c => .ok (c == 1) | none => .err) ∧
+    (rf = [] → columnFormat (some rf) i = .ok false) ∧
+    (∀ c, rf = [c] → columnFormat (some rf) i = .ok (c == 1)) ∧
+    (2 ≤ rf.length → ∀ c, rf[i]? = some c → columnFormat (some rf) i = .ok (c == 1)) ∧
+    columnFormat none i = .ok false := by
+  have h := columnFormat_rule rf hv i
+  refine ⟨h, ?_, ?_, ?_, columnFormat_simple i⟩
+  · intro he; subst he; exact h
+  · intro c he; subst he; exact h
+  · intro hl c hc
+    rw [h]
+    match rf, hl with
+    | a :: b :: r, _ =>
+      simp only [pgResultFormat, hc]
+
+/-- **pg_format_code_rule.** `GetParameterFormatByIndex` itself – used for the result formats of every column and for
+the formats of the bound parameters (`BindPacket.GetParameters`) – is PostgreSQL's rule for a list of format codes: no
+code → text, one code → that code for every index, otherwise the code at the index; an index without a code is an
+error. (For valid codes; an unknown code is an error of the lookup.) -/
+theorem pg_format_code_rule (codes : List Nat) (hv : ValidCodes codes) (i : Nat) :
+    Wire.Pg.formatByIndex i codes = (match pgResultFormat codes i with | some c => .ok (c == 1) | none => .err) :=
+  formatByIndex_rule codes hv i
+
+/-- **row_columns_independent_pg.** In a DataRow the proxy delivers (`pgRow … = .cols outs`), the value at position `i`
+is a function of column `i` alone: NULL stays NULL, and a column with a setting is what the single-column read path
+`pgTypedRead` makes of ITS setting, ITS stored value and ITS keys (`reveal`) in the format PostgreSQL's rule gives
+column `i` – whatever the other columns hold, decrypt or fail to decrypt. So `typed_owner_pg`, `typed_policy_pg`,
+`never_wrong_type_pg` and `describe_matches_data_pg` hold for every column of every row, with
+`binary := (pgResultFormat rf i == some 1)`: for all three shapes of the code list and every column index. -/
+theorem row_columns_independent_pg (rf : Option (List Nat)) (hv : ∀ codes, rf = some codes → ValidCodes codes)
+    (cols : List (RowColumn × Option Bytes)) (outs : List (Option (Bytes × Bool)))
+    (h : pgRow rf Ctx.fresh cols = .cols outs) :
+    outs.length = cols.length ∧
+    (∀ (i : Nat) (c : RowColumn), cols[i]? = some (c, none) → outs[i]? = some none) ∧
+    (∀ (i : Nat) (c : RowColumn) (wire : Bytes) (s : Setting) (d64 : Default64),
+      cols[i]? = some (c, some wire) → c.setting = some (s, d64) →
+      ∃ binary b rb,
+        (match rf with
+         | none => binary = false
+         | some codes => ∃ code, pgResultFormat codes i = some code ∧ binary = (code == 1)) ∧
+        pgTypedRead s binary d64 c.reveal wire = .value b rb ∧ outs[i]? = some (some (b, rb))) := by
+  have hloop : pgRowLoop false rf Ctx.fresh 0 cols = .cols outs := by
+    unfold pgRow at h
+    have hc : Generated.Typed.pgRowCtxCarried = false := rfl
+    rw [hc] at h
+    cases rf with
+    | none => exact h
+    | some codes =>
+      simp only [getResultFormats_valid codes (hv codes rfl)] at h
+      split at h
+      · exact h
+      · cases h
+  rw [pgRowLoop_uncarried] at hloop
+  obtain ⟨h1, h2, h3⟩ := collectRow_cols _ _ hloop
+  have hlen : (pgColsFrom rf Ctx.fresh 0 cols).length = cols.length := by
+    have : ∀ (i : Nat) (l : List (RowColumn × Option Bytes)), (pgColsFrom rf Ctx.fresh i l).length = l.length := by
+      intro i l
+      induction l generalizing i with
+      | nil => rfl
+      | cons x xs ih => obtain ⟨c, v⟩ := x; simp [pgColsFrom, ih]
+    exact this 0 cols
+  refine ⟨by rw [h1, hlen], ?_, ?_⟩
+  · intro i c hi
+    apply h2
+    rw [pgColsFrom_getElem?, hi]
+    rfl
+  · intro i c wire s d64 hi hs
+    have hg : (pgColsFrom rf Ctx.fresh 0 cols)[i]? = some (some (pgColRes rf Ctx.fresh (0 + i) c wire)) := by
+      rw [pgColsFrom_getElem?, hi]
+      rfl
+    obtain ⟨b, rb, hr, ho⟩ := h3 i _ hg
+    rw [Nat.zero_add] at hr
+    unfold pgColRes at hr
+    cases rf with
+    | none =>
+      rw [columnFormat_simple] at hr
+      simp only at hr
+      rw [pgColumnChain_fresh c s d64 false wire hs] at hr
+      exact ⟨false, b, rb, rfl, hr, ho⟩
+    | some codes =>
+      rw [columnFormat_rule codes (hv codes rfl) i] at hr
+      cases hp : pgResultFormat codes i with
+      | none => rw [hp] at hr; cases hr
+      | some code =>
+        rw [hp] at hr
+        simp only at hr
+        rw [pgColumnChain_fresh c s d64 _ wire hs] at hr
+        exact ⟨code == 1, b, rb, ⟨code, hp, rfl⟩, hr, ho⟩
+
+/-- **typed_owner_pg_row.** Extended protocol, any valid result-format codes, any column index `i`, any other columns: in
+a delivered row the owner's value of a typed column at position `i` is the specification encoding of the plaintext as
+the declared type IN THE FORMAT THE CLIENT ASKED FOR COLUMN `i` (`pgResultFormat codes i`: the one code when there is
+one, the column's code otherwise, text without codes). -/
+theorem typed_owner_pg_row (codes : List Nat) (hv : ValidCodes codes) (cols : List (RowColumn × Option Bytes))
+    (outs : List (Option (Bytes × Bool))) (h : pgRow (some codes) Ctx.fresh cols = .cols outs)
+    (i : Nat) (c : RowColumn) (s : Setting) (t : DataType) (d64 : Default64) (wire x m w : Bytes) (code : Nat)
+    (hi : cols[i]? = some (c, some wire)) (hs : c.setting = some (s, d64)) (ht : s.dataType = some t)
+    (hf : pgResultFormat codes i = some code)
+    (hx : pgDecode s (code == 1) wire = some x) (hr : c.reveal x = some m) (hm : m ≠ [])
+    (hw : pgSpecEncode t (code == 1) m = some w) :
+    outs[i]? = some (some (w, false)) := by
+  obtain ⟨_, _, h3⟩ := row_columns_independent_pg (some codes) (fun cs hc => by cases hc; exact hv) cols outs h
+  obtain ⟨binary, b, rb, ⟨code', hc', hb⟩, hread, ho⟩ := h3 i c wire s d64 hi hs
+  rw [hf] at hc'
+  cases hc'
+  subst hb
+  rw [typed_owner_pg s t (code == 1) d64 c.reveal wire x m w ht hx hr hm hw] at hread
+  cases hread
+  exact ho
+
+/-- **row_columns_independent_my.** For every MySQL result row (text or binary protocol), every mixture of columns the
+reader can decrypt, cannot decrypt, or that hold garbage, and every mixture of failure policies: in a delivered row the
+value and the roll-back mark at position `i` are what the single-column read path `myTypedRead` makes of column `i`'s OWN
+setting, stored value and keys – no mark ("decrypted", "type conversion failed") and no setting of another column is
+involved; NULL stays NULL. A row is refused exactly when some column's OWN outcome is an error (policy `error` on a
+value that is not revealed, or a failing encoder), every column in front of it being deliverable. So `typed_owner_my`,
+`typed_policy_my` and `describe_matches_data_my` hold for every column of every row. -/
+theorem row_columns_independent_my (binary : Bool) (cols : List (RowColumn × Option Bytes)) :
+    let row := if binary then myBinaryRow Ctx.fresh cols else myTextRow Ctx.fresh cols
+    (∀ outs, row = .cols outs →
+      outs.length = cols.length ∧
+      (∀ (i : Nat) (c : RowColumn), cols[i]? = some (c, none) → outs[i]? = some none) ∧
+      (∀ (i : Nat) (c : RowColumn) (wire : Bytes) (s : Setting) (d64 : Default64),
+        cols[i]? = some (c, some wire) → c.setting = some (s, d64) →
+        ∃ b rb, myTypedRead s binary c.colType c.originType d64 c.reveal wire = .value b rb ∧
+          outs[i]? = some (some (b, rb)))) ∧
+    ((∀ outs, row ≠ .cols outs) →
+      ∃ (i : Nat) (c : RowColumn) (wire : Bytes), cols[i]? = some (c, some wire) ∧
+        (row = .encodingError ↔ (myColumnChain Ctx.fresh c binary wire).2 = .encodingError) ∧
+        (row = .otherError ↔ (myColumnChain Ctx.fresh c binary wire).2 = .otherError) ∧
+        (∀ s d64, c.setting = some (s, d64) →
+          (myColumnChain Ctx.fresh c binary wire).2 = myTypedRead s binary c.colType c.originType d64 c.reveal wire)) := by
+  intro row
+  have hrow : row = collectRow (myColsFrom binary Ctx.fresh cols) := by
+    have h1 : Generated.Typed.myTextRowCtxCarried = false := rfl
+    have h2 : Generated.Typed.myBinaryRowCtxCarried = false := rfl
+    cases binary
+    · show myTextRow Ctx.fresh cols = _
+      unfold myTextRow; rw [h1, myRowLoop_uncarried]
+    · show myBinaryRow Ctx.fresh cols = _
+      unfold myBinaryRow; rw [h2, myRowLoop_uncarried]
+  have hlen : ∀ l : List (RowColumn × Option Bytes), (myColsFrom binary Ctx.fresh l).length = l.length := by
+    intro l
+    induction l with
+    | nil => rfl
+    | cons x xs ih => obtain ⟨c, v⟩ := x; simp [myColsFrom, ih]
+  have hlen := hlen cols
+  constructor
+  · intro outs ho
+    rw [hrow] at ho
+    obtain ⟨h1, h2, h3⟩ := collectRow_cols _ _ ho
+    refine ⟨by rw [h1, hlen], ?_, ?_⟩
+    · intro i c hi
+      apply h2
+      rw [myColsFrom_getElem?, hi]
+      rfl
+    · intro i c wire s d64 hi hs
+      have hg : (myColsFrom binary Ctx.fresh cols)[i]? = some (some (myColumnChain Ctx.fresh c binary wire).2) := by
+        rw [myColsFrom_getElem?, hi]
+        rfl
+      obtain ⟨b, rb, hr, hout⟩ := h3 i _ hg
+      rw [myColumnChain_fresh c s d64 binary wire hs] at hr
+      exact ⟨b, rb, hr, hout⟩
+  · intro hne
+    rw [hrow] at hne ⊢
+    obtain ⟨i, r, h1, _, h3, h4, _⟩ := collectRow_error _ hne
+    rw [myColsFrom_getElem?] at h1
+    cases hc : cols[i]? with
+    | none => rw [hc] at h1; cases h1
+    | some cv =>
+      obtain ⟨c, v⟩ := cv
+      rw [hc] at h1
+      cases v with
+      | none => simp at h1
+      | some wire =>
+        simp only [Option.map_some, Option.some.injEq] at h1
+        subst h1
+        exact ⟨i, c, wire, hc, h3, h4, fun s d64 hs => myColumnChain_fresh c s d64 binary wire hs⟩
+
+/-- **Counterexample shape (what the carried context would do).** If the returned context were carried to the next
+column (`ctx, value, err = handler.onColumnDecryption(ctx, …)`), a column the reader can decrypt followed by one it
+cannot, with `response_on_fail: default_value`, would deliver the stored ciphertext of the second column instead of
+the default: the loop with `carried = true` differs from the loop the source has. -/
+theorem carried_context_counterexample :
+    let c1 : RowColumn := ⟨some (⟨some .str, .ciphertext, none, true⟩, ⟨none⟩), fun _ => some [111, 107], 254, 253⟩
+    let c2 : RowColumn := ⟨some (⟨some .str, .defaultValue, some [100], true⟩, ⟨none⟩), fun _ => none, 254, 253⟩
+    myRowLoop false false Ctx.fresh [(c1, some [37, 37, 37]), (c2, some [37, 37, 38])]
+      = .cols [some ([2, 111, 107], false), some ([1, 100], false)] ∧
+    myRowLoop true false Ctx.fresh [(c1, some [37, 37, 37]), (c2, some [37, 37, 38])]
+      = .cols [some ([2, 111, 107], false), some ([3, 37, 37, 38], false)] := by decide
+
 /-! ## non-vacuity -/
 
 /-- a revealed boundary integer in binary format: the hypotheses of `typed_owner_pg` are satisfiable -/
@@ -611,6 +839,32 @@ example : myTypedRead ⟨some .int64, .ciphertext, none, true⟩ true 8 252 ⟨n
     = .value [3, 37, 37, 37] true := by decide
 
 example : blobLike 252 ∧ blobLike 253 ∧ blobLike 254 := by unfold blobLike; decide
+
+/-- the three shapes of the result-format codes are valid code lists, and PostgreSQL's rule on them: ONE code `1` means
+binary for column 2 as well; per-column codes give column 2 its own code; no codes mean text -/
+example : ValidCodes [] ∧ ValidCodes [1] ∧ ValidCodes [0, 1, 1] ∧
+    pgResultFormat [1] 2 = some 1 ∧ pgResultFormat [0, 1, 0] 2 = some 0 ∧ pgResultFormat [] 2 = some 0 ∧
+    pgResultFormat [0, 1] 2 = none := by
+  refine ⟨?_, ?_, ?_, rfl, rfl, rfl, rfl⟩ <;> intro c hc <;> simp at hc <;> omega
+
+/-- a delivered PostgreSQL row (hypothesis of `row_columns_independent_pg` / `typed_owner_pg_row`): ONE result-format
+code `1`, the typed column at index 1 behind a column that is handed over as stored; the int32 value 305419896 arrives
+as the four bytes 12 34 56 78 -/
+example : pgRow (some [1]) Ctx.fresh
+      [(⟨some (⟨some .str, .ciphertext, none, true⟩, ⟨none⟩), fun _ => none, 0, 0⟩, some [37, 37, 37]),
+       (⟨some (⟨some .int32, .error, none, true⟩, ⟨none⟩), fun _ => some [51, 48, 53, 52, 49, 57, 56, 57, 54], 0, 0⟩, some [37, 37, 38])]
+    = .cols [some ([37, 37, 37], false), some ([0x12, 0x34, 0x56, 0x78], false)] := by decide +kernel
+
+/-- a delivered MySQL row and a refused one (both branches of `row_columns_independent_my`): a decryptable column in
+front of one that is not, with the policies `default_value` and `error` -/
+example : myTextRow Ctx.fresh
+      [(⟨some (⟨some .str, .ciphertext, none, true⟩, ⟨none⟩), fun _ => some [111, 107], 254, 253⟩, some [37, 37, 37]),
+       (⟨some (⟨some .str, .defaultValue, some [100], true⟩, ⟨none⟩), fun _ => none, 254, 253⟩, some [37, 37, 38])]
+    = .cols [some ([2, 111, 107], false), some ([1, 100], false)] := by decide
+example : myBinaryRow Ctx.fresh
+      [(⟨some (⟨some .str, .ciphertext, none, true⟩, ⟨none⟩), fun _ => some [111, 107], 254, 253⟩, some [37, 37, 37]),
+       (⟨some (⟨some .int32, .error, none, true⟩, ⟨none⟩), fun _ => none, 3, 253⟩, some [37, 37, 38])]
+    = .encodingError := by decide
 
 /-- what the description handlers announce for an accepted column of each kind:
 (type aware?, RowDescription and ParameterDescription for a bytea column, Parse for a parameter the client declared with
